@@ -236,6 +236,13 @@ impl RawConnectorBuilder {
             left_feat_ids_tmp.push(feat_ids);
         }
 
+        if feat_template_size == 0 {
+            return Err(VibratoError::invalid_format(
+                "bigram.right/bigram.left",
+                "must define at least one connection id",
+            ));
+        }
+
         Ok(Self::new(
             right_feat_ids_tmp,
             left_feat_ids_tmp,
